@@ -14,6 +14,7 @@ import (
 	"io"
 	"log"
 	"net"
+	"os"
 	"strings"
 	"sync"
 	"testing"
@@ -752,6 +753,9 @@ func TestVerifC37(t *testing.T) {
 			c37Case{Deny: []string{"metrics.8"}, TTL: 60, Max: 8, Msgs: [][]byte{[]byte("select * from orders o join metrics.7 p on o._key = p._key"), []byte("select * from orders o join metrics.8 p on o._key = p._key")}},
 			c37Case{Allow: []string{"orders"}, TTL: 60, Max: 8, Msgs: [][]byte{[]byte("describe orders"), []byte("describe orders1"), []byte("describe 'orders'"), []byte("describe orders."), []byte("DESCRIBE ORDERS")}},
 		)
+		if os.Getenv("VERIF_NO_CORPUS") != "" { // sensitivity experiments: generated cases only
+			corpus = nil
+		}
 		for _, cs := range corpus {
 			runOne(cs, "corpus")
 		}
